@@ -31,7 +31,9 @@ in clear) — for the port that was really dialled / the listening port the peer
 port, `pierce obfs` on the obfuscated one).  `probe`: the caller uses the connection it was given — the peer sends one
 message (`P`: PeerUserInfoRequest, `D`: DistributedBranchLevel, `F`: a transfer ticket read with
 `receive_transfer_ticket`) and is sent one, each encoded / decoded by the protocol's rule.  The `wireback` family does the
-same for a connect-back (`ConnectToPeer` from the server → PeerPierceFirewall at the asking peer).
+same for a connect-back (`ConnectToPeer` from the server → PeerPierceFirewall at the asking peer), from the message up:
+type x port situation of the message (the 6 of the direct grid, the obfuscated-port fields absent, and NO usable port at
+all: 0 / absent, 0 / 0) x outcome of the dial, every case compared with `connectBack` of the model (`backreq`).
 
 case = {'kind', 'mode', 'lookup', 'srvFail', 'typ', 'prefer', 'ports': [clear, obfs], 'hold': [label...]?,
         'ops': [[name, arg?]...]}
@@ -968,7 +970,10 @@ def _run_back_wire(case: dict) -> dict:
     library dials the port `select_port` picks; the connect succeeds / is refused / the first write fails.  Observed: what
     the asking peer — decoding as the protocol says for the port that was dialled — has read, whether the server was told
     CannotConnect, and (when connected) one message each way on the new connection.
-    case = {'kind': 'wireback:…', 'typ', 'prefer', 'ports': [clear, obfs], 'how': ok | refused | write-fails}"""
+    case = {'kind': 'wireback:…', 'typ', 'prefer', 'ports': [clear, obfs], 'how': ok | refused | write-fails}
+    `obfs` None = the message ends after `privileged` (no obfuscated-port fields); clear 0 and obfs 0 / None = the asking peer
+    has no listening port the server knows of — whatever is dialled then (port 0) is refused at once by the OS (`how` is
+    `refused`; a library that does not dial at all is fine too: line `dial=0`)."""
     from aioslsk.protocol.messages import ConnectToPeer, CannotConnect, PeerPierceFirewall
 
     async def main(loop):
@@ -978,11 +983,14 @@ def _run_back_wire(case: dict) -> dict:
             typ, how = case['typ'], case['how']
             bus, net, server, srv_task = await start_network(loop, fn, make_settings('fallback', obfuscate=bool(case['prefer'])))
             traffic = _PeerTraffic(bus)
-            port, obf = _expected_port(bool(case['prefer']), clear, obfs)
+            port, obf = _expected_port(bool(case['prefer']), clear, obfs or 0)
             if how == 'write-fails':
                 fn.writer_setup[(PEER_IP, port)] = lambda w: setattr(w, 'fail_after', 0)
-            server.send(ConnectToPeer.Response(USER, typ, PEER_IP, clear, TICKET, False,
-                                               obfuscated_port_amount=1 if obfs else 0, obfuscated_port=obfs))
+            if obfs is None:
+                server.send(ConnectToPeer.Response(USER, typ, PEER_IP, clear, TICKET, False))
+            else:
+                server.send(ConnectToPeer.Response(USER, typ, PEER_IP, clear, TICKET, False,
+                                                   obfuscated_port_amount=1 if obfs else 0, obfuscated_port=obfs))
             await settle()
             dial = [k for k in fn.pending if k != SERVER_ADDR and fn.connect_parked(k)]
             if dial:
@@ -1001,7 +1009,9 @@ def _run_back_wire(case: dict) -> dict:
             if conn is not None and lw is not None and not lw._closed:
                 use = list(await _probe(conn, typ, pobf, bool(pierced), fn.rem[key][1], lw, traffic, 7100))
             keep = (bus, net, srv_task, traffic)  # noqa: F841
-            line = f'enc={enc}' + (' use=%d%d' % tuple(use) if use is not None else '')
+            # canonical: port 0 / None is no port (`dial=0` also when nothing was dialled); `ans` = who was answered
+            line = (f'dial={(key[1] or 0) if key else 0} obf={int(pobf)} ans={"p" if pierced else ""}{"s" if cc else ""} '
+                    f'reg={len(net.peer_connections)} enc={enc}' + (' use=%d%d' % tuple(use) if use is not None else ''))
             return {'line': line, 'dialed': [list(k) for k in dial], 'expected_dial': [PEER_IP, port], 'port_obf': pobf,
                     'pierced': pierced, 'cc': cc, 'use': use, 'enc': enc,
                     'registered': len(net.peer_connections),
@@ -1023,14 +1033,17 @@ def _run_back_wire(case: dict) -> dict:
 
 def _monitor_back_wire(case: dict, io: dict) -> list[Violation]:
     vs = []
-    if io['dialed'] and io['dialed'][0] != io['expected_dial']:
+    usable_port = bool(case['ports'][0] or case['ports'][1])
+    if usable_port and io['dialed'] and io['dialed'][0] != io['expected_dial']:
         vs.append(Violation('C11-select-port', f"connect-back dialled {io['dialed']}", case, io['dialed'],
                             f"{io['expected_dial']} (an available port, the preferred kind when both exist)"))
     if not io['pierced'] and not io['cc']:
         how = {'c': 'in clear', 'o': 'obfuscated', '-': 'nothing', '?': 'not a peer-init message in either encoding'}[io['enc']]
         vs.append(Violation('C11-connect-back-unanswered',
-                            f'the server passed on a ConnectToPeer (type {case["typ"]}); we dialled the peer\'s '
-                            f'{"obfuscated" if io["port_obf"] else "clear"} port (connect: {case["how"]}); the peer — decoding as '
+                            f'the server passed on a ConnectToPeer (type {case["typ"]}, ports {case["ports"]}); we dialled '
+                            + (f'the peer\'s {"obfuscated" if io["port_obf"] else "clear"} port' if usable_port else
+                               f'{io["dialed"] or "nothing"} (the peer has no usable port)') +
+                            f' (connect: {case["how"]}); the peer — decoding as '
                             f'the protocol says for that port — has not read a PeerPierceFirewall with the ticket (what we wrote: '
                             f'{how}) and the server was not sent CannotConnect', case, io['line'],
                             'a pierce-firewall message to the peer or a cannot-connect report to the server'))
@@ -1038,8 +1051,15 @@ def _monitor_back_wire(case: dict, io: dict) -> list[Violation]:
 
 
 def _wireback_cases() -> list[dict]:
-    return [{'kind': f'wireback:{typ}:{how}', 'typ': typ, 'prefer': prefer, 'ports': [clear, obfs], 'how': how}
-            for typ in TYPES for clear, obfs, prefer in PORT_CFGS for how in ('ok', 'refused', 'write-fails')]
+    """type x port situation of the ConnectToPeer x outcome of the dial.  Port situations: the 6 of the direct grid, the clear
+    port alone with the obfuscated-port fields absent from the message, and NO usable port at all (0 / absent, 0 / 0: the
+    server passes on what it knows of a peer that has not announced a listening port) — there the only outcome is the
+    immediate refusal, and the asking peer must still be answered (CannotConnect)."""
+    cs = [{'kind': f'wireback:{typ}:{how}', 'typ': typ, 'prefer': prefer, 'ports': [clear, obfs], 'how': how}
+          for typ in TYPES for clear, obfs, prefer in PORT_CFGS + ABSENT_CFGS for how in ('ok', 'refused', 'write-fails')]
+    cs += [{'kind': f'wireback:{typ}:no-port', 'typ': typ, 'prefer': prefer, 'ports': [clear, obfs], 'how': 'refused'}
+           for typ in TYPES for clear, obfs, prefer in NOPORT_CFGS]
+    return cs
 
 
 # --------------------------------------------------------------------------------------------
@@ -1053,6 +1073,8 @@ LATE = [['probe'], ['pierce'], ['cannotConnect'], ['pierce', 'obfs'], ['connectO
         ['probe']]
 TYPES = 'PDF'
 PORT_CFGS = [(2234, 0, 0), (0, 2235, 0), (2234, 2235, 0), (2234, 2235, 1), (2234, 0, 1), (0, 2235, 1)]
+ABSENT_CFGS = [(2234, None, 0), (2234, None, 1)]                  # connect-back only: no obfuscated-port fields in the message
+NOPORT_CFGS = [(0, None, 0), (0, None, 1), (0, 0, 0), (0, 0, 1)]  # connect-back only: nothing to dial
 
 
 def _with_pierce_port(ops: list, obfs: bool) -> list:
@@ -1416,7 +1438,9 @@ class C11(Property):
             'after the request finished and again after the late events; the full product mode x type x 6 port situations x '
             'address given / looked up x {direct wins, pierce on the clear port, pierce on the obfuscated port, direct then '
             'late pierce, pierce then late connect} (360 cases) + probes; connect-back at wire level: ConnectToPeer from the '
-            'server for type x 6 port situations x {connect ok, refused, first write fails} (54 cases); '
+            'server for type x 8 port situations (incl. obfuscated-port fields absent) x {connect ok, refused, first write '
+            'fails} + type x 4 situations with no usable port at all (clear 0 and obfuscated absent / 0, either preference; the '
+            'dial of port 0 is refused at once) (84 cases, each through the model); '
             'random op sequences from VERIF_SEED; SUSPENDED LISTENERS: for 25 sets of notifications whose '
             'listeners suspend (each single one of CONNECTING / CONNECTED / PeerInitializedEvent / CLOSING / CLOSED of the '
             'outgoing connection, CONNECTED / PeerInitializedEvent / CLOSING / CLOSED of a connection being accepted, the '
@@ -1453,8 +1477,10 @@ class C11(Property):
                 'connection object of the request (PeerConnection.obfuscated, connection_state, reader task) as '
                 '_make_direct_connection / ListeningConnection.accept / on_peer_accepted / _finalize_peer_connection / '
                 'set_connection_state set it, the encoding PeerInit goes out in, and the outcome of one message each way on '
-                'the returned connection; connect-back (_handle_connect_to_peer) through Model/Conn.lean, its wire level '
-                '(PeerPierceFirewall, then finalise) through connectBackWire. Exercised only: codec, obfuscation, '
+                'the returned connection; connect-back (_handle_connect_to_peer) through Model/Conn.lean, from the message '
+                'up (select_port over present / 0 / absent ports, registration, connect / write outcome, who is answered) '
+                'through connectBack, its wire level (PeerPierceFirewall, then finalise) through connectBackWire. '
+                'Exercised only: codec, obfuscation, '
                 'asyncio.wait/gather/Task.cancel, connection internals (C10), a suspended PeerInit drain (K_C10 direct '
                 'scenarios), two pierces in flight at once (monitor only)')
 
@@ -1482,8 +1508,11 @@ class C11(Property):
                 raise RuntimeError(f'C11 harness error: {io["harness_error"]}\n{io.get("tb")}\ncase={c}')
         model = None
         sel_lines = [f'selectPort {p} {a} {b}' for p in (0, 1) for a in (0, 2234) for b in (0, 2235) if a or b]
-        wb_model = [c for c in wback if c['how'] == 'ok']
-        wb_lines = [f"back {c['typ']} {int(_expected_port(bool(c['prefer']), *c['ports'])[1])}" for c in wb_model]
+        # every connect-back case goes through the model from the message up (`backreq`): port situation incl. absent
+        # fields / no port at all, preference, type, outcome of the dial
+        wb_model = wback
+        wb_lines = [f"backreq {c['typ']} {int(bool(c['prefer']))} {c['ports'][0]} "
+                    f"{'-' if c['ports'][1] is None else c['ports'][1]} {c['how']}" for c in wb_model]
         if model_ok:
             lines, spans = [], []
             for c, io in zip(cases[:n_model], impl):
@@ -1578,7 +1607,10 @@ class C11(Property):
             io = impl[len(cases) + len(back) + j]
             res.evaluations += 1
             res.count('kind:connect-back-wire')
-            res.count(f"connect-back-wire:{c['typ']}:{'obfuscated' if io['port_obf'] else 'clear'}-port:{c['how']}")
+            res.count(f"connect-back-wire:{c['typ']}:{'obfuscated' if io['port_obf'] else 'clear'}-port:{c['how']}"
+                      if c['ports'][0] or c['ports'][1] else
+                      f"connect-back-wire:{c['typ']}:no-port(obfuscated-port-{'absent' if c['ports'][1] is None else '0'})")
+            res.count(f"connect-back-answer:{ {'p': 'pierce-firewall', 's': 'cannot-connect', '': 'NONE'}.get(io['line'].split(' ans=')[1].split(' ')[0], 'both') }")
             res.nontrivial_keys.add(common.sha(c))
             res.violations += _monitor_back_wire(c, io)
             for e in io.get('loop_exceptions', []):
